@@ -268,3 +268,32 @@ func (c *Ctx) Finish(explanation string, notDecided string, assumptions []string
 
 // Obligations exposes recorded obligations (for the sensitivity tier).
 func (c *Ctx) Obligations() []*Obligation { return c.obs }
+
+// Import re-records, under new rule ids, the obligations another rule set produced for the
+// rules named in mapping (old id → new id). Used where one structural clause is a necessary
+// condition of two properties: the clause is evaluated once and reported under both.
+func (c *Ctx) Import(from *Ctx, mapping map[string]string, docSuffix string) {
+	for _, old := range from.ruleOrder {
+		nw, ok := mapping[old]
+		if !ok {
+			continue
+		}
+		ri := from.rules[old]
+		c.Rule(nw, ri.Doc+docSuffix, ri.Floor)
+	}
+	for _, o := range from.obs {
+		nw, ok := mapping[o.Rule]
+		if !ok {
+			continue
+		}
+		construct := strings.TrimPrefix(o.Key, o.Rule+"|")
+		// strip the ordinal the source context appended; Ob re-appends one
+		if i := strings.LastIndex(construct, "#"); i >= 0 {
+			if _, err := fmt.Sscanf(construct[i:], "#%d", new(int)); err == nil && regexp.MustCompile(`#\d+$`).MatchString(construct) {
+				construct = construct[:i]
+			}
+		}
+		n := c.Ob(nw, construct, o.pos, o.OK, o.What, o.Detail)
+		n.Facts, n.Required, n.Path = o.Facts, o.Required, o.Path
+	}
+}
